@@ -483,6 +483,65 @@ func c13R8(e *Engine) {
 		return
 	}
 	n := 0
+	// validates(g): every success return of g is preceded, on every path, by the key derivation – itself or an engine
+	// function of which the same holds. where(g) names the success return that is not.
+	memo := map[*ssa.Function]string{}
+	var gap func(g *ssa.Function, depth int) string
+	gap = func(g *ssa.Function, depth int) string {
+		if g == gk {
+			return ""
+		}
+		if r, ok := memo[g]; ok {
+			return r
+		}
+		memo[g] = "" // recursion guard
+		if depth > 4 || g.Blocks == nil {
+			memo[g] = "?"
+			return "?"
+		}
+		var keyCalls []ssa.Instruction
+		instrs(g, func(in ssa.Instruction) {
+			c, ok := in.(*ssa.Call)
+			if !ok || c.Call.StaticCallee() == nil {
+				return
+			}
+			h := c.Call.StaticCallee()
+			if h == gk || (e.fnRole(h) != "" && e.reach(h)[gk] && gap(h, depth+1) == "") {
+				keyCalls = append(keyCalls, in)
+			}
+		})
+		ei := errResultIndex(g)
+		bad := ""
+		for _, r := range returnsOf(g) {
+			if ei < 0 || !isNilConst(retVals(r)[ei]) {
+				continue
+			}
+			dominated := false
+			for _, kc := range keyCalls {
+				if idominates(kc, r) {
+					dominated = true
+				}
+			}
+			if !dominated {
+				bad = e.fname(g) + " at " + e.ipos(r)
+				// name the innermost function with the gap
+				instrs(g, func(in ssa.Instruction) {
+					c, ok := in.(*ssa.Call)
+					if !ok || c.Call.StaticCallee() == nil || !idominates(in, r) {
+						return
+					}
+					h := c.Call.StaticCallee()
+					if h != gk && e.fnRole(h) != "" && e.reach(h)[gk] {
+						if w := gap(h, depth+1); w != "" && w != "?" {
+							bad = w
+						}
+					}
+				})
+			}
+		}
+		memo[g] = bad
+		return bad
+	}
 	for _, role := range clientRoles {
 		ms := e.clientMethods(role)
 		for _, op := range []string{"PutItem", "UpdateItem", "DeleteItem", "GetItem"} {
@@ -492,38 +551,11 @@ func c13R8(e *Engine) {
 			}
 			n++
 			construct := role + ".Client." + op + ":success-after-key-validation"
-			// calls that (transitively) derive the key
-			var keyCalls []ssa.Instruction
-			instrs(fn, func(in ssa.Instruction) {
-				c, ok := in.(*ssa.Call)
-				if !ok || c.Call.StaticCallee() == nil {
-					return
-				}
-				g := c.Call.StaticCallee()
-				if g == gk || (e.fnRole(g) != "" && e.reach(g)[gk]) {
-					keyCalls = append(keyCalls, in)
-				}
-			})
-			ei := errResultIndex(fn)
-			bad := ""
-			for _, r := range returnsOf(fn) {
-				if ei < 0 || !isNilConst(retVals(r)[ei]) {
-					continue
-				}
-				dominated := false
-				for _, kc := range keyCalls {
-					if idominates(kc, r) {
-						dominated = true
-					}
-				}
-				if !dominated {
-					bad = e.ipos(r)
-				}
-			}
+			bad := gap(fn, 0)
 			if bad != "" {
-				e.fail("R8", construct, e.pos(fn.Pos()), "the success return at %s is not preceded on every path by the engine call that derives and validates the key: a request with a missing or wrongly typed key attribute succeeds on that path", bad)
+				e.fail("R8", construct, e.pos(fn.Pos()), "the success return in %s is not preceded on every path by the call that derives and validates the key: a request with a missing or wrongly typed key attribute succeeds on that path", bad)
 			} else {
-				e.pass("R8", construct, e.pos(fn.Pos()), "every success return is dominated by one of %d key-deriving engine call(s)", len(keyCalls))
+				e.pass("R8", construct, e.pos(fn.Pos()), "every success return – of the method and of the engine functions it relies on – is dominated by the key derivation")
 			}
 		}
 	}
